@@ -207,6 +207,12 @@ var c01Templates = []diffTmpl{
 	// loops
 	{"for i = x, x + 2 do emit(i) end", "int"},
 	{"for i = 3, 1, -1 do emit(i + x) end; for i = 1, 0 do emit('never') end", "int"},
+	// numeric for with unusual steps: zero and minus zero (lvm.c: the loop runs while limit <= index when the step
+	// is not positive, so a zero step with init >= limit enters the body), fractional, and a fully symbolic
+	// init / limit / step cut off after three rounds (round-7 seeded change C01-forloop-zero-step)
+	{"for i = 1, 0, 0 do emit(i, x); break end; for i = 3, 3, -0 do emit(i); break end; for i = 0, 1, 0 do emit('never') end; local n = 0; for i = 2, 1, 0 do n = n + 1; if n == 3 then break end end; emit(n)", "int"},
+	{"for i = 1, 2, 0.5 do emit(i + x) end; for i = 1, 0, -0.25 do emit(i) end", "int"},
+	{"local n = 0; for i = x, y, z do n = n + 1; emit(i); if n == 3 then break end end; emit(n)", "int"},
 	{"local s = 0; for i = 1, 3 do if i == 2 then goto cont end; s = s + i * x; ::cont:: end; emit(s)", "int"},
 	{"local i = 0; while i < 3 do i = i + 1; if i + x == 2 then break end; emit(i) end; emit('done', i)", "int"},
 	{"local i = 0; repeat local k = i + x; i = i + 1 until k >= x + 2; emit(i)", "int"},
@@ -317,7 +323,7 @@ func c01Inputs(kind string) []diffInput {
 
 // C01.tmpl — whole-pipeline differential against R-lua.
 //
-//verif:harness prop=C01 tier=quick bounds="89 program templates organised by compiler special case (multiple assignment shapes, destination kinds, relational/logical contexts, loops, goto, tables, closures, varargs, errors, coercions); inputs: 3 symbolic float64 / 3 symbolic 32-bit integers / 2 values of any scalar type"
+//verif:harness prop=C01 tier=quick bounds="92 program templates organised by compiler special case (multiple assignment shapes, destination kinds, relational/logical contexts, loops, goto, tables, closures, varargs, errors, coercions); inputs: 3 symbolic float64 / 3 symbolic 32-bit integers / 2 values of any scalar type"
 func H_C01_tmpl() {
 	t := c01Templates[VChoice(len(c01Templates))]
 	diffRun(t.src, t.src, c01Inputs(t.kind), Options{})
